@@ -383,6 +383,12 @@ def sess_c06_ext(seed):
             evs.append(session.record_call(doc, {'op': 'spine_types', 'args': {'alltypes': False, 'types': [cps(t) for t in ts]}}))
         evs.append(session.record_call(doc, {'op': 'spine_types', 'args': {'alltypes': True, 'types': []}}))
         evs.append(session.record_call(doc, {'op': 'spine_types', 'args': {'alltypes': True, 'types': []}, '_form': 1}))
+        # selection by spine id: the id of a spine is the column of its exclusive interpretation (ids start again at 0 in a new section)
+        width = max(len(e['cells']) for e in lines if e['ev'] in ('header', 'row'))
+        idsets = subsets(list(range(min(width, 4))))
+        for ids in (idsets if len(idsets) <= 8 else r.sample(idsets, 8)):
+            evs.append(session.record_call(doc, {'op': 'dumps', 'args': session.dumps_args(types=present, ids=ids), 'exact': True, 'base': base}))
+        evs.append(session.record_call(doc, {'op': 'spine_ids', 'args': {}}))
     return finish_session(lines, evs, text, seed, features(lines) | {'extended-machine'})
 
 
